@@ -115,7 +115,7 @@ def scripts(seed, tier):
     for b in bases:
         out.append(all_entry_script(b, rnd))
     out.append(set_ip_script(bases[1]))
-    n = 250 if tier == "quick" else 6000
+    n = 250 if tier == "quick" else 30000
     for _ in range(n):
         out.append(random_script(rnd.choice(bases), rnd, rnd.randint(2, 10)))
     return out
